@@ -21,6 +21,12 @@ import typing as t
 MessageSizes = collections.namedtuple("MessageSizes", ["header"])
 
 
+def _mark(kind: str) -> None:
+    from simworld import threads
+
+    threads.mark(kind)
+
+
 class StubCtxError(Exception):
     pass
 
@@ -141,6 +147,7 @@ class StubCtx:
         return self._complete
 
     def step(self, in_token: t.Optional[bytes] = None) -> t.Optional[bytes]:
+        _mark("ctx-step")
         self.n_steps += 1
         i = self.n_steps
         self.calls.append(("step", i, None if in_token is None else bytes(in_token), self._complete))
@@ -158,6 +165,7 @@ class StubCtx:
         return MessageSizes(header=self.sig)
 
     def wrap_iov(self, iov, encrypt: bool = True, qop=None) -> _IovResult:
+        _mark("wrap")
         import spnego.iov as siov
 
         bufs = _norm(iov)
@@ -169,6 +177,7 @@ class StubCtx:
                            _Buf(siov.BufferType.header, sig)])
 
     def unwrap_iov(self, iov) -> _IovResult:
+        _mark("unwrap")
         import spnego.iov as siov
 
         bufs = _norm(iov)
